@@ -236,6 +236,167 @@ copy_then_fillna = Contract(S + "DatasetWrapper.copy", label="copy_then_fillna_o
                             ensures=[("operand_unchanged", frame(("self",)))], call=_cp_call, options={"native_call": _cp_native},
                             witness=[_wit(k) for k in KINDS])
 
+# ================================================================ selection / indexing / reduction / flattening / concatenation
+from pyvc.interp import Slice as _Slice
+
+SPECV = {"1d": (NAME_E, "a1", "b1", "a2", "b2"), "2d": (NAME_E,)}
+SCALV = ("depth", "latitude", "longitude")
+SDIMS = {"1d": (NAME_F,), "2d": (NAME_F, NAME_D)}
+
+
+def _native_spec(kw, inst):
+    out = dict(kw)
+    for k, v in kw.items():
+        if isinstance(v, dict) and "dataset" in v:
+            out[k] = native_spectrum(v)
+    return out
+
+
+def _cell(rx, ri, sx, si):
+    """cell ri of rx is cell si of sx: same missing flag, and the same value when present"""
+    rn = False if rx.nan is None else rx.nan[ri]
+    sn = False if sx.nan is None else sx.nan[si]
+    return And(iff(rn, sn), implies(Not(sn), eq(rx.arr[ri], sx.arr[si])))
+
+
+def _over_spectral(sp, fn):
+    """forall spectral index tuple"""
+    if sp.two_d:
+        return forall(0, sp.nf, lambda j: forall(0, sp.nd, lambda k: fn((j, k)), "k"), "j")
+    return forall(0, sp.nf, lambda j: fn((j,)), "j")
+
+
+def _time_of(r, idx):
+    vs = r.dataset.vars
+    if "time" in vs:
+        return vs["time"].arr[idx]
+    return r.dataset.coords["time"][idx]
+
+
+def _kind_of(a):
+    return "2d" if Spec(a.self).two_d else "1d"
+
+
+def _same_class(a, r):
+    return r._o.cls is a.self._o.cls
+
+
+def _names(kind):
+    return set(SPECV[kind]) | set(SCALV)
+
+
+def _native_vars(s):
+    return [v for v in s.dataset.data_vars if v != "time"]
+
+
+def _native_eq(x, y):
+    import numpy as np
+    x, y = np.asarray(x), np.asarray(y)
+    if x.shape != y.shape:
+        return False
+    return bool(np.array_equal(x, y, equal_nan=True) if x.dtype.kind == "f" else np.array_equal(x, y))
+
+
+def _native_member(r, s, lead_index, time_value=None):
+    """native twin: every variable of r is the lead_index-th member of the same variable of s (bitwise), same spectral coordinates, same kind"""
+    ok = type(r) is type(s) and set(_native_vars(r)) == set(_native_vars(s))
+    for v in _native_vars(s):
+        ok = ok and _native_eq(r.dataset[v].values, s.dataset[v].values[lead_index])
+    ok = ok and _native_eq(r.dataset["time"].values, s.dataset["time"].values[lead_index] if time_value is None else time_value)
+    for c in (NAME_F, NAME_D):
+        if c in s.dataset.coords:
+            ok = ok and _native_eq(r.dataset[c].values, s.dataset[c].values)
+    return bool(ok)
+
+
+def member_is(i_of):
+    """the result is member i of the operand: variance density, moments, depth, position and time of member i, on the
+    operand's spectral grid, an object of the operand's class"""
+    def clause(a, r):
+        i = i_of(a)
+        if not hasattr(r, "_o"):
+            return _native_member(r, a.self, i)
+        sp = Spec(a.self)
+        kind = _kind_of(a)
+        vs, src = r.dataset.vars, a.self.dataset.vars
+        cs = [_same_class(a, r), set(vs) - {"time"} == _names(kind)]
+        for v in SPECV[kind]:
+            cs.append(vs[v].dims == SDIMS[kind])
+            cs.append(_over_spectral(sp, lambda ix, v=v: _cell(vs[v], ix, src[v], (i,) + ix)))
+        for v in SCALV:
+            cs.append(vs[v].dims == ())
+            cs.append(_cell(vs[v], (), src[v], (i,)))
+        cs.append(eq(_time_of(r, ()), a.self.dataset.coords["time"][i]))
+        cs.append(r.dataset.coords[NAME_F]._a is a.self.dataset.coords[NAME_F]._a)
+        if sp.two_d:
+            cs.append(r.dataset.coords[NAME_D]._a is a.self.dataset.coords[NAME_D]._a)
+        return And(*cs)
+    return clause
+
+
+def members_are(lo_of, n_of):
+    """the result holds members lo .. lo+n-1 of the operand, in order (leading dimension kept)"""
+    def clause(a, r):
+        lo, n = lo_of(a), n_of(a)
+        if not hasattr(r, "_o"):
+            import numpy as np
+            return _native_member(r, a.self, slice(int(lo), int(lo) + int(n)))
+        sp = Spec(a.self)
+        kind = _kind_of(a)
+        vs, src = r.dataset.vars, a.self.dataset.vars
+        cs = [_same_class(a, r), set(vs) - {"time"} == _names(kind)]
+        for v in SPECV[kind]:
+            cs.append(vs[v].dims == (P,) + SDIMS[kind])
+            cs.append(eq(vs[v].arr.shape[0], n))
+            cs.append(forall(0, n, lambda q, v=v: _over_spectral(sp, lambda ix: _cell(vs[v], (q,) + ix, src[v], (lo + q,) + ix)), "q"))
+        for v in SCALV:
+            cs.append(vs[v].dims == (P,))
+            cs.append(eq(vs[v].arr.shape[0], n))
+            cs.append(forall(0, n, lambda q, v=v: _cell(vs[v], (q,), src[v], (lo + q,)), "q"))
+        cs.append(forall(0, n, lambda q: eq(_time_of(r, (q,)), a.self.dataset.coords["time"][lo + q]), "q"))
+        cs.append(r.dataset.coords[NAME_F]._a is a.self.dataset.coords[NAME_F]._a)
+        return And(*cs)
+    return clause
+
+
+REQ_SIZES = ("sizes", lambda a: And(Spec(a.self).np_ >= 0, Spec(a.self).nf >= 0, (Spec(a.self).nd >= 0) if Spec(a.self).two_d else True))
+
+
+def _p_isel_int(kind):
+    def p(mk):
+        sp = spectrum(mk, kind)
+        return _record(mk, ("self",))({"self": sp, "time": mk.int("i")})
+    return p
+
+
+isel_int = Contract(S + "DatasetWrapper.isel", label="isel_int", instances=[(k, _p_isel_int(k)) for k in KINDS],
+                    requires=[REQ_SIZES, ("index_in_range", lambda a: And(a.time >= 0, a.time < Spec(a.self).np_))],
+                    ensures=[("operand_unchanged_result_new", frame(("self",))),
+                             ("result_is_member_i", member_is(lambda a: a.time))],
+                    native=_native_spec, witness=[_wit(k, time=1) for k in KINDS])
+
+
+def _p_isel_slice(kind):
+    def p(mk):
+        sp = spectrum(mk, kind)
+        return _record(mk, ("self",))({"self": sp, "lo": mk.int("lo"), "hi": mk.int("hi")})
+    return p
+
+
+def _isel_slice_call(interp, st, fv, args):
+    return interp.call_function(st, fv, [], {"self": args["self"], "time": _Slice(args["lo"], args["hi"], None)})
+
+
+isel_slice = Contract(S + "DatasetWrapper.isel", label="isel_slice", instances=[(k, _p_isel_slice(k)) for k in KINDS],
+                      requires=[REQ_SIZES, ("slice_in_range", lambda a: And(a.lo >= 0, a.lo <= a.hi, a.hi <= Spec(a.self).np_))],
+                      ensures=[("operand_unchanged_result_new", frame(("self",))),
+                               ("result_is_members_lo_to_hi_in_order", members_are(lambda a: a.lo, lambda a: a.hi - a.lo))],
+                      call=_isel_slice_call, native=_native_spec,
+                      options={"native_call": lambda kw, inst: kw["self"].isel(time=slice(kw["lo"], kw["hi"]))},
+                      witness=[_wit(k, lo=lo, hi=hi) for k in KINDS for lo, hi in ((0, 2), (1, 1), (1, 2))])
+
+NEW = [isel_int, isel_slice]
+
 def _bounded_restructure(tier, seed):
     """concatenate/select, flatten pairing, netCDF round trip and random operation sequences with bitwise operand snapshots
     (functions outside the verified subset: np.unravel_index / reshape / xarray.concat / file I/O)"""
@@ -354,7 +515,7 @@ def _bounded_restructure(tier, seed):
 
 BOUNDED = [Bounded("restructuring_and_sequences", _bounded_restructure)]
 
-CONTRACTS = [add_c, sub_c, neg_c, copy_deep, copy_shallow, bandpass_c, multiply_c, multiply_inplace, as1d_c, bandpass_then_fillna, copy_then_fillna]
+CONTRACTS = [add_c, sub_c, neg_c, copy_deep, copy_shallow, bandpass_c, multiply_c, multiply_inplace, as1d_c, bandpass_then_fillna, copy_then_fillna] + NEW
 TRUSTED = ["effect model of xarray in pyvc/models/xr.py: DataArray objects are immutable buffers (a store through .values is refused as unsupported), Dataset.__setitem__ mutates only the mapping it is called on, "
            "copy(deep=True) allocates new buffers, copy()/assign share them, every arithmetic / selection method returns a new DataArray"]
 EXPLANATION = ("frame conditions proved on a symbolic heap: operands keep their Dataset object, its variable bindings and buffers, nothing is assigned into them, results are new objects around new "
